@@ -631,7 +631,8 @@ This might be due to one or several causes:
     same version of IPFS-cluster.
 **************************************************
 `)
-		c.Shutdown(ctx)
+		// Shutdown() waits for this goroutine: run it in another one.
+		go c.Shutdown(ctx)
 		return
 	case <-c.consensus.Ready(ctx):
 		// Consensus ready means the state is up to date. Every item
@@ -647,7 +648,7 @@ This might be due to one or several causes:
 	peers, err := c.consensus.Peers(ctx)
 	if err != nil {
 		logger.Error(err)
-		c.Shutdown(ctx)
+		go c.Shutdown(ctx)
 		return
 	}
 
